@@ -258,6 +258,10 @@ pub trait Kind<'s>: Input<'s, Token = Self::Tok, Span = Self::Spn> + Sized + 's 
     /// value-building formulation of to_slice(): map_with(|_, e| e.slice())
     fn slice_node_explicit<R: Er<'s, Self>>(p: BP<'s, Self, R>) -> BP<'s, Self, R>;
     // primitives and combinators that need ValueInput
+    /// just(seq): by default the sequence is a Vec of tokens; `&str` varies the `Seq` representation (see there)
+    fn p_just<R: Er<'s, Self>>(s: &str) -> BP<'s, Self, R> {
+        chumsky::primitive::just::<_, Self, Ex<R>>(toks_of::<Self>(s)).map(|v: Vec<Self::Tok>| Val::Str(v.iter().map(|t| t.to_char()).collect())).boxed()
+    }
     fn p_any<R: Er<'s, Self>>() -> BP<'s, Self, R>;
     fn p_one_of<R: Er<'s, Self>>(set: &str) -> BP<'s, Self, R>;
     fn p_none_of<R: Er<'s, Self>>(set: &str) -> BP<'s, Self, R>;
@@ -410,14 +414,17 @@ pub mod vprims {
 /// forwards the ValueInput-only primitives of `Kind` to `vprims`
 macro_rules! value_kind_prims {
     () => {
-        fn p_any<R: Er<'s, Self>>() -> BP<'s, Self, R> {
-            vprims::any::<Self, R>()
-        }
         fn p_one_of<R: Er<'s, Self>>(set: &str) -> BP<'s, Self, R> {
             vprims::one_of::<Self, R>(set)
         }
         fn p_none_of<R: Er<'s, Self>>(set: &str) -> BP<'s, Self, R> {
             vprims::none_of::<Self, R>(set)
+        }
+        value_kind_prims!(nosets);
+    };
+    (nosets) => {
+        fn p_any<R: Er<'s, Self>>() -> BP<'s, Self, R> {
+            vprims::any::<Self, R>()
         }
         fn p_select<R: Er<'s, Self>>(set: &str, flavour: SelFlavour) -> BP<'s, Self, R> {
             vprims::select::<Self, R>(set, flavour)
@@ -603,8 +610,96 @@ fn tok_slice_val<T: Tk>(s: &[T]) -> Val {
     Val::Slice(s.as_ptr() as usize, s.len(), s.iter().map(|t| t.to_char()).collect())
 }
 
+/// small strings of generated grammars as `&'static str` (just("ab") with a string literal is the everyday form);
+/// bounded: beyond 20000 distinct strings the caller falls back to an owned String
+fn intern(s: &str) -> Option<&'static str> {
+    use std::collections::HashSet;
+    use std::sync::Mutex;
+    static POOL: Mutex<Option<HashSet<&'static str>>> = Mutex::new(None);
+    let mut g = POOL.lock().unwrap();
+    let pool = g.get_or_insert_with(HashSet::new);
+    if let Some(x) = pool.get(s) {
+        return Some(*x);
+    }
+    if pool.len() >= 20_000 {
+        return None;
+    }
+    let l: &'static str = Box::leak(s.to_string().into_boxed_str());
+    pool.insert(l);
+    Some(l)
+}
+
+fn fnv_str(s: &str) -> u64 {
+    let mut h = 0xcbf29ce484222325u64;
+    for b in s.bytes() {
+        h = (h ^ b as u64).wrapping_mul(0x100000001b3);
+    }
+    h
+}
+
+/// the character set as every `Seq` representation the library offers, chosen by the set's content (so that one
+/// grammar always builds the same way): a single token, an inclusive / half-open range when the characters are
+/// consecutive code points, String, &'static str, [char; N], HashSet, BTreeSet, LinkedList, Vec
+macro_rules! str_set_prim {
+    ($f:ident, $set:expr, $R:ty) => {{
+        let set: &str = $set;
+        let mut cs: Vec<char> = set.chars().collect();
+        let m = |t: char| Val::Tok(t);
+        let h = fnv_str(set) >> 7;
+        let mut sorted = cs.clone();
+        sorted.sort();
+        sorted.dedup();
+        let contiguous = sorted.len() >= 2 && sorted.len() == cs.len() && sorted.windows(2).all(|w| w[0] as u32 + 1 == w[1] as u32);
+        let next = |c: char| char::from_u32(c as u32 + 1);
+        if cs.len() == 1 {
+            chumsky::primitive::$f::<_, &'s str, Ex<$R>>(cs[0]).map(m).cb()
+        } else if contiguous && h % 3 == 0 {
+            chumsky::primitive::$f::<_, &'s str, Ex<$R>>(sorted[0]..=sorted[sorted.len() - 1]).map(m).cb()
+        } else if contiguous && h % 3 == 1 && next(sorted[sorted.len() - 1]).is_some() {
+            chumsky::primitive::$f::<_, &'s str, Ex<$R>>(sorted[0]..next(sorted[sorted.len() - 1]).unwrap()).map(m).cb()
+        } else {
+            match h % 8 {
+                0 => chumsky::primitive::$f::<_, &'s str, Ex<$R>>(set.to_string()).map(m).cb(),
+                1 if intern(set).is_some() => {
+                    let lit: &'s str = intern(set).unwrap();
+                    chumsky::primitive::$f::<_, &'s str, Ex<$R>>(lit).map(m).cb()
+                }
+                2 if cs.len() == 2 => chumsky::primitive::$f::<_, &'s str, Ex<$R>>([cs[0], cs[1]]).map(m).cb(),
+                2 if cs.len() == 3 => chumsky::primitive::$f::<_, &'s str, Ex<$R>>([cs[0], cs[1], cs[2]]).map(m).cb(),
+                3 => chumsky::primitive::$f::<_, &'s str, Ex<$R>>(cs.drain(..).collect::<std::collections::HashSet<char>>()).map(m).cb(),
+                4 => chumsky::primitive::$f::<_, &'s str, Ex<$R>>(cs.drain(..).collect::<std::collections::BTreeSet<char>>()).map(m).cb(),
+                5 => chumsky::primitive::$f::<_, &'s str, Ex<$R>>(cs.drain(..).collect::<std::collections::LinkedList<char>>()).map(m).cb(),
+                _ => chumsky::primitive::$f::<_, &'s str, Ex<$R>>(cs).map(m).cb(),
+            }
+        }
+    }};
+}
+
 impl<'s> Kind<'s> for &'s str {
-    value_kind_prims!();
+    value_kind_prims!(nosets);
+    fn p_one_of<R: Er<'s, Self>>(set: &str) -> BP<'s, Self, R> {
+        str_set_prim!(one_of, set, R)
+    }
+    fn p_none_of<R: Er<'s, Self>>(set: &str) -> BP<'s, Self, R> {
+        str_set_prim!(none_of, set, R)
+    }
+    /// just(seq) with the sequence as one char, a string literal, a String, [char; N] or a Vec<char>
+    fn p_just<R: Er<'s, Self>>(s: &str) -> BP<'s, Self, R> {
+        let cs: Vec<char> = s.chars().collect();
+        let owned = s.to_string();
+        let h = fnv_str(s) >> 5;
+        match (cs.len(), h % 5) {
+            (1, 0 | 1 | 2) => chumsky::primitive::just::<_, &'s str, Ex<R>>(cs[0]).map(|c: char| Val::Str(c.to_string())).cb(),
+            (_, 0 | 1) if intern(s).is_some() => {
+                let lit: &'s str = intern(s).unwrap();
+                chumsky::primitive::just::<_, &'s str, Ex<R>>(lit).map(|x: &'s str| Val::Str(x.to_string())).cb()
+            }
+            (_, 2) => chumsky::primitive::just::<_, &'s str, Ex<R>>(owned).map(|x: String| Val::Str(x)).cb(),
+            (2, 3) => chumsky::primitive::just::<_, &'s str, Ex<R>>([cs[0], cs[1]]).map(|x: [char; 2]| Val::Str(x.iter().collect())).cb(),
+            (3, 3) => chumsky::primitive::just::<_, &'s str, Ex<R>>([cs[0], cs[1], cs[2]]).map(|x: [char; 3]| Val::Str(x.iter().collect())).cb(),
+            _ => chumsky::primitive::just::<_, &'s str, Ex<R>>(cs).map(|v: Vec<char>| Val::Str(v.iter().collect())).cb(),
+        }
+    }
     fn p_iter_then<R: Er<'s, Self>>(this: &mut Bld<'s, Self, R>, parts: &[G], sink: u8) -> BP<'s, Self, R> {
         crate::build_c::iter_then_str(this, parts, sink)
     }
@@ -942,6 +1037,23 @@ impl<'s, I: Kind<'s> + ValueInput<'s>, R: Er<'s, I>> ExtParser<'s, I, Val, Ex<R>
             return Err(R::custom(inp.span_since(&before), format!("C{}", self.tag)));
         }
         Ok(())
+    }
+}
+
+/// an extension parser around an inner parser: parse() and check() are written separately and hand the input to the
+/// inner parser through InputRef::parse / InputRef::check
+pub struct ExtOf<'s, I: Kind<'s>, R: Er<'s, I>>(pub BP<'s, I, R>);
+impl<'s, I: Kind<'s>, R: Er<'s, I>> Clone for ExtOf<'s, I, R> {
+    fn clone(&self) -> Self {
+        ExtOf(self.0.clone())
+    }
+}
+impl<'s, I: Kind<'s>, R: Er<'s, I>> ExtParser<'s, I, Val, Ex<R>> for ExtOf<'s, I, R> {
+    fn parse(&self, inp: &mut InputRef<'s, '_, I, Ex<R>>) -> Result<Val, R> {
+        inp.parse(&self.0)
+    }
+    fn check(&self, inp: &mut InputRef<'s, '_, I, Ex<R>>) -> Result<(), R> {
+        inp.check(&self.0)
     }
 }
 
